@@ -38,6 +38,8 @@ def main():
     seed = os.path.abspath(args.seed)
     meta = json.load(open(os.path.join(seed, 'meta.json')))
     props = [p for p in args.props.split(',') if p] or [meta.get('property', '')[:3]]
+    lean_copies = set(d for d in os.listdir(os.path.join(VERIF, 'replays')) if d.startswith('lean-')) \
+        if os.path.isdir(os.path.join(VERIF, 'replays')) else set()
     wt = tempfile.mkdtemp(prefix='seedrun-')
     os.rmdir(wt)
     out = {'seed': os.path.basename(seed), 'property': meta.get('property'), 'checks': {}}
@@ -78,6 +80,11 @@ def main():
     finally:
         run(['git', '-C', '/repo', 'worktree', 'remove', '--force', wt])
         shutil.rmtree(wt, ignore_errors=True)
+        # private Lean builds made for this tree's source atoms (harness/engine.py: _select_lean): 180 MB each
+        if os.path.isdir(os.path.join(VERIF, 'replays')):
+            for d in os.listdir(os.path.join(VERIF, 'replays')):
+                if d.startswith('lean-') and d not in lean_copies:
+                    shutil.rmtree(os.path.join(VERIF, 'replays', d), ignore_errors=True)
     print(json.dumps(out, indent=1))
     if args.keep:
         dst = os.path.join(VERIF, 'seeded', os.path.basename(seed))
